@@ -1,47 +1,51 @@
 """C13 - validation, encoder and ISA database agree on which instruction forms exist; names map back to ids.
 
-Shape I (input space).  Three observations are taken of every case (one request to the assembler), each on a fresh
-CodeHolder / with no state carried over:
-    N  = Assembler::emit, validation OFF   (harness/emit_x86 diag 'n'  /  harness/emit_a64)
-    V  = Assembler::emit, DiagnosticOptions::kValidateAssembler ON   (emit_x86 diag 'v'  /  emit_a64 --validate)
-    VAL= InstAPI::validate() called directly   (harness/c13_names --mode validate-x86 | validate-a64)
-Cases: every form of the x86 ISA database x {32,64}-bit mode and every form of the AArch64 database, instantiated by the
-C01 / C02 generators (lib/x86cases.py, lib/a64cases.py): default operands + every single deviation (k<=1; thorough: pairs
-on one representative x86 form per encoder path, k<=2 on AArch64) + near-miss mutations of the default (lib/c13lib.py:
-operand size one class off, two operands swapped, wrong operand count (a64), {k} {z} {er} {sae} broadcast lock xacquire
-xrelease rep repne on forms that do not list them) + the default instantiation of every x64-only form in 32-bit mode and
-every x86-only form in 64-bit mode.
+Shape I (input space).  Every case (one request to the assembler) is observed several times, each time on a fresh CodeHolder:
+    N   = Assembler::emit, validation OFF                                  (harness/emit_x86 diag 'n'  /  harness/emit_a64)
+    V   = Assembler::emit, DiagnosticOptions::kValidateAssembler ON       (emit_x86 diag 'v'  /  emit_a64 --validate)
+    VAL = InstAPI::validate() called directly                              (harness/c13_names --mode validate-x86 | validate-a64)
+    NW / VW (AArch64 only) = N / V emitted after a NOP                     (harness/c13_names --mode emit-a64-warm): emit_a64 emits
+          every case as the first instruction of an empty buffer, which sends also the non-validating assembler down its slow
+          path; after a NOP the non-validating run takes the fast path and the validating one the slow path, as in real code.
+Cases: every form of the x86 ISA database x {32,64}-bit mode and every form of the AArch64 database, instantiated by the C01 / C02
+generators (lib/x86cases.py, lib/a64cases.py): default operands + every single deviation (x86 k<=1; thorough: pairs on one
+representative x86 form per encoder path; AArch64 quick k<=2, thorough: full product of the slot alphabets) + near-miss mutations of
+the default (lib/c13lib.py: operand size one class off, two operands swapped, wrong operand count (a64), {k} {z} {er} {sae}
+broadcast lock xacquire xrelease rep repne on forms that do not list them) + the instances of every x64-only form in 32-bit mode
+and of every x86-only form in 64-bit mode.
 
 Clauses (violation key  agree:<arch>:<mode>:<mnemonic>:<db form signature>:<clause>@<deviation class>):
-  (A) validation-changes-success   VAL ok, but V and N do not return the same error code
+  (A) validation-changes-success   VAL ok, but V and N (a64 also: VW and NW) do not return the same error code
       validation-changes-bytes     VAL ok, V and N succeed with different bytes / section growth / relocation count
       validate-vs-assembler        VAL refuses the request but V (which runs the same validator first) accepts it
-  (B) validator-admits-encoder-rejects   VAL ok but N refuses the request.  Not asserted for refusals that depend on the
-      code position, which validate() is not told (N fails with InvalidDisplacement / a label-state error).
+  (B) validator-admits-encoder-rejects[<encoder error>]   VAL ok but N refuses the request.  Not asserted for refusals that depend on
+      the code position, which validate() is not told (N fails with InvalidDisplacement / a label-state error).
       (the converse, N accepts what VAL refuses, is the permitted leniency of the fast path: counted as lenient_encoder)
-  (C) validator-accepts-excluded-mode    default instantiation (or the other reg/mem alternative) of a form the database
-      marks x64-only in 32-bit mode / x86-only in 64-bit mode, VAL ok, and no other db form of the mnemonic that IS
-      allowed in that mode admits the same operand list
+  (C) validator-accepts-excluded-mode    an instance of a form the database marks x64-only in 32-bit mode / x86-only in 64-bit mode,
+      VAL ok, and no other db form of the mnemonic that IS allowed in that mode admits the same operand list
   (D) implemented-form-rejected / validator-rejects-implemented-form   ref/implemented_{x86,a64}.txt lists one line per
-      (mode, mnemonic, db form signature) that the pinned tree accepted with all three observations for at least one
-      *instance of the form itself* (x86: default / other reg-mem alternative / implicit operands written out; a64: any
-      case without a reference-side 'not encodable' reason).  A listed line for which no instance is accepted by all
-      three any more is a violation: 'validator-rejects-implemented-form' when N still accepts an instance that VAL now
-      refuses, else 'implemented-form-rejected'.  db forms not in the list are reported as unimplemented (evidence only).
-      The lists are written only by `./check C13 --opt regen=1`.
+      (mode, mnemonic, db form signature) that the pinned tree accepted with N, V and VAL for at least one *instance of the form
+      itself* (x86: default operands / other reg-mem alternative / implicit operands written out / another register 0..7 of the
+      same class; a64: any case without a reference-side 'not encodable' reason), and one line '<signature> +<feature>' per
+      decoration / prefix / encoding option of the form ({k} {k}{z} {er} {sae} broadcast lock xacquire xrelease rep repne vex3
+      modmr modrm short long rex) accepted likewise.  A listed line for which no instance is accepted by all three any more is a
+      violation: 'validator-rejects-implemented-form' when N still accepts an instance that VAL now refuses, else
+      'implemented-form-rejected' (also when the assembler no longer knows the mnemonic).  db forms not in the list are reported as
+      unimplemented (evidence only).  The lists are written only by `./check C13 --opt regen=1`.
   (F) names: see harness/c13_names.cpp (keys names:<arch>:<clause>:<name>).
 
-Root-cause classes: when InstAPI::validate(Arch::kAArch64) accepts instruction id 0, an id beyond the table and six
-immediates for ADD (probe), the AArch64 validator is an accept-everything stub; its (B) violations then carry the class
-'@validate-stub' instead of the deviation class.  a64 names that are not found although the id table is not in name order
-carry the clause name-roundtrip[unsorted-id-table].
+Root-cause classes.  The deviation class of a case whose clause the form's DEFAULT instantiation already shows is 'default'.  When
+InstAPI::validate(Arch::kAArch64) accepts instruction id 0, an id beyond the table and ADD with six immediates (probe), the AArch64
+validator is an accept-everything stub; its (B) violations are then filed as  validator-admits-encoder-rejects@validate-stub.
+a64 names that are not found although the id table is not in name order carry the clause name-roundtrip[unsorted-id-table].
 
-A systematic defect hits thousands of cases: per (arch, mode, clause, deviation class) at most CAP_PER_CLASS keys are
-reported (first in sorted order), per (arch, mode, clause) at most CAP_PER_CLAUSE; keys matched by known findings are
-reported under the known key and do not consume the caps.  Totals: violating_cases, violation_keys_not_listed, notes.
+A systematic defect hits thousands of cases.  Violations are folded by key; per (arch, mode, clause, deviation class) CAP_PER_CLASS
+keys are reported (classes 'default' and 'form': CAP_DEFAULT keys of different mnemonics), per (arch, mode, clause) at most CAP_PER_CLAUSE, per
+name clause CAP_NAMES; keys matched by known findings are reported under the known key and consume none of the caps.  Totals are in
+the evidence: violating_cases, violation_keys_not_listed, one note per (arch, mode, clause) with the classes and mnemonics.
 
-opts: only=<mnemonic,...> (x86), forms=<regex on 'mnemonic:syntax'> (a64), arch=x86|a64|names, regen=1.
-Debugging: C13_DEBUG_DIR=<dir> dumps every violating case and the verdict histograms.
+opts: only=<mnemonic,...> (x86), forms=<regex on 'mnemonic:syntax'> (a64), arch=x86|a64|names, k=<a64 deviation bound>, regen=1.
+Debugging: C13_DEBUG_DIR=<dir> dumps every violating key (viol.txt) and the encoder-only accepted form instances (enc_only.txt).
 """
 import os, re, sys, json, time, shutil, subprocess, collections, multiprocessing, tempfile
 
@@ -78,6 +82,10 @@ ASSUMPTIONS = [
     "clause (C) is judged at the level 'some db form of the mnemonic admits these operands in this mode' with a generous matcher "
     "(a case another form may admit is not judged)",
     "one representative violation key per (arch, mode, clause, deviation class); totals in the evidence",
+    "x86 cases are emitted as the first instruction of a soft-reset CodeHolder (harness/emit_x86); AArch64 cases additionally after a NOP "
+    "so that the non-validating assembler is observed on its fast path",
+    "the vendored lists are form-level: a line stays 'accepted' as long as one instance of the form / feature is accepted by all three "
+    "observations",
 ]
 
 
@@ -318,8 +326,9 @@ def _x86_work_inner(chunk_id, names, out):
                 else:
                     cnt["excluded_mode_refused"] += 1
                     cnt["distinct_nontrivial"] += 1
-            elif role == "inst" and L.is_form_instance(dev, c.mode):
-                key = (str(c.mode), f["name"], f["sig"])
+            elif role == "inst" and (L.is_form_instance(dev, c.mode) or L.x86_feature_of(dev)):
+                feat = None if L.is_form_instance(dev, c.mode) else L.x86_feature_of(dev)
+                key = (str(c.mode), f["name"], f["sig"] + (" +" + feat if feat else ""))
                 st = out["lines"].get(key)
                 if st is None:
                     st = out["lines"][key] = dict(full=False, val=False, n=False, v=False, sample=None, apx=True)
@@ -331,7 +340,7 @@ def _x86_work_inner(chunk_id, names, out):
                 st["v"] = st["v"] or v_ok
                 if st["sample"] is None or (dev == "default" and not st["sample"][3]):
                     st["sample"] = (C01.case_to_json(c), X.emit_line(c), "validate %s, emit %s, emit+validation %s" % (val[1], rn[1], rv[1]), dev == "default")
-                if n_ok and not val_ok:
+                if n_ok and not val_ok and feat is None:
                     cnt["db_form_instance_encoder_accepts_validator_refuses"] += 1
                     if len(out["enc_only"]) < 400:
                         out["enc_only"].append("%s (form '%s %s' %s): validate() = %s, bytes %s" % (X.emit_line(c), f["name"], f["sig"], f["opcodeString"], val[1], rn[2].hex() if rn[2] else "-"))
@@ -375,6 +384,8 @@ def x86_leg(res, ctx, exes, acc):
         for k, st in o["lines"].items():
             lines[k] = st
     acc["lines_x86"] = lines
+    acc["db_lines_x86"] = {(str(m), f["name"], f["sig"]): (None if f["name"] in known else "mnemonic unknown to the assembler (InstAPI::string_to_inst_id)")
+                           for f in forms for m in f["modes"] if not only or f["name"] in set(only.split(","))}
     res.count("x86_forms_total", len(forms))
     res.count("x86_mnemonics_total", len(set(f["name"] for f in forms)))
     res.count("x86_mnemonics_known_to_assembler", len(known))
@@ -406,21 +417,22 @@ def run_emit_a64(exe, lines, workdir, validate):
     return res, r.returncode, r.stderr[-3000:]
 
 
-def run_validate_a64(exe, lines, workdir):
+def run_validate_a64(exe, lines, workdir, mode=("--mode", "validate-a64")):
+    """c13_names filter modes: validate-a64 -> (err, name);  emit-a64-warm -> (err, name, hex)."""
     fd, path = tempfile.mkstemp(suffix=".vin", dir=workdir)
     outp = path + ".out"
     with os.fdopen(fd, "w") as f:
         for i, l in enumerate(lines):
             f.write("%d\t%s\n" % (i, l))
     try:
-        r = subprocess.run([exe, "--mode", "validate-a64", "--in", path, "--res", outp], stdout=subprocess.PIPE, stderr=subprocess.PIPE, text=True, timeout=1800)
+        r = subprocess.run([exe] + list(mode) + ["--in", path, "--res", outp], stdout=subprocess.PIPE, stderr=subprocess.PIPE, text=True, timeout=1800)
         res = [None] * len(lines)
         if os.path.exists(outp):
             with open(outp) as f:
                 for l in f:
                     c = l.rstrip("\n").split("\t")
                     if len(c) >= 3:
-                        res[int(c[0])] = (int(c[1]), c[2])
+                        res[int(c[0])] = (int(c[1]), c[2]) + ((c[3],) if len(c) > 3 else ())
     finally:
         os.unlink(path)
         if os.path.exists(outp):
@@ -432,15 +444,21 @@ def a64_observe(exes, texts, workdir):
     rn, rc1, e1 = run_emit_a64(exes["emit_a64"], texts, workdir, False)
     rv, rc2, e2 = run_emit_a64(exes["emit_a64"], texts, workdir, True)
     val, rc3, e3 = run_validate_a64(exes["names"], texts, workdir)
+    # the same two emits into a warmed-up buffer: only there the non-validating assembler takes its fast path
+    nw, rc4, e4 = run_validate_a64(exes["names"], texts, workdir, ("--mode", "emit-a64-warm"))
+    vw, rc5, e5 = run_validate_a64(exes["names"], texts, workdir, ("--mode", "emit-a64-warm", "--validate", "1"))
     crashes = []
-    for which, rc, err, r in (("emit_a64", rc1, e1, rn), ("emit_a64 --validate", rc2, e2, rv), ("validate", rc3, e3, val)):
+    for which, rc, err, r in (("emit_a64", rc1, e1, rn), ("emit_a64 --validate", rc2, e2, rv), ("validate", rc3, e3, val),
+                              ("emit (warm buffer)", rc4, e4, nw), ("emit+validation (warm buffer)", rc5, e5, vw)):
         if rc != 0:
             first = next((i for i, x in enumerate(r) if x is None), None)
             crashes.append((which, rc, err, first))
-    return list(zip(rv, rn, val)), crashes
+    return list(zip(rv, rn, val, vw, nw)), crashes
 
 
-def a64_judge_case(text, rv, rn, val):
+def a64_judge_case(text, rv, rn, val, vw=None, nw=None):
+    """rv / rn: harness/emit_a64 (case = first instruction of a fresh CodeHolder); vw / nw: the same after a NOP (warm buffer:
+    the non-validating assembler takes its fast path)."""
     out = []
     v_ok, n_ok, val_ok = rv[0] == 0, rn[0] == 0, val[0] == 0
     if val_ok:
@@ -448,6 +466,12 @@ def a64_judge_case(text, rv, rn, val):
             out.append(("validation-changes-success", "`%s`: validate() = Ok; emit without validation -> %s, with validation -> %s" % (text, rn[1], rv[1])))
         elif v_ok and rv[2] != rn[2]:
             out.append(("validation-changes-bytes", "`%s`: validate() = Ok; bytes without validation %s, with validation %s" % (text, rn[2] or "-", rv[2] or "-")))
+        elif vw is not None and nw is not None and vw[0] >= 0 and nw[0] >= 0:
+            if vw[0] != nw[0]:
+                out.append(("validation-changes-success", "`%s` (after a NOP, so that the non-validating assembler takes its fast path): validate() = Ok; emit without validation -> %s, "
+                            "with validation -> %s" % (text, nw[1], vw[1])))
+            elif vw[0] == 0 and vw[2] != nw[2]:
+                out.append(("validation-changes-bytes", "`%s` (after a NOP): validate() = Ok; bytes without validation %s, with validation %s" % (text, nw[2] or "-", vw[2] or "-")))
         if not n_ok and rn[1] not in POSITION_ERRORS:
             out.append(("validator-admits-encoder-rejects[%s]" % rn[1], "`%s`: validate() = Ok but the non-validating assembler refuses it with %s" % (text, rn[1])))
     elif v_ok:
@@ -512,16 +536,16 @@ def _a64_work_inner(args):
                                           a64_replay_text(plan, tag, text, "crash", "process died", ch)))
             else:
                 out["errors"].append("%s failed rc=%s: %s" % (which, rc, err[-500:]))
-        for (plan, tag, text, ch, valid), (rv, rn, val) in zip(batch, obs):
-            if rv is None or rn is None or val is None:
+        for (plan, tag, text, ch, valid), (rv, rn, val, vw, nw) in zip(batch, obs):
+            if rv is None or rn is None or val is None or vw is None or nw is None:
                 cnt["not_executed"] += 1
                 continue
             if rn[0] < 0 or val[0] < 0:
                 cnt["a64_text_not_parsed"] += 1      # near-miss text the filter cannot build operands from
                 continue
             cnt["evaluations"] += 1
-            cnt["observations"] += 3
-            clauses, (val_ok, n_ok, v_ok) = a64_judge_case(text, rv, rn, val)
+            cnt["observations"] += 5
+            clauses, (val_ok, n_ok, v_ok) = a64_judge_case(text, rv, rn, val, vw, nw)
             out["hist"]["val=%s n=%s v=%s" % ("Ok" if val_ok else "rej", "Ok" if n_ok else "rej", "Ok" if v_ok else "rej")] += 1
             if val_ok and n_ok and v_ok and not clauses:
                 cnt["distinct_nontrivial"] += 1
@@ -593,6 +617,7 @@ def a64_leg(res, ctx, exes, acc):
         res.errors.extend(o["errors"])
         lines.update(o["lines"])
     acc["lines_a64"] = lines
+    acc["db_lines_a64"] = {("64", f["name"], ac.form_signature(f).replace(" ", "")): setup.unsupported.get(f["idx"]) for f in setup.forms}
     acc["a64_k"] = k
     acc["a64_complete"] = not only
     res.count("a64_forms_total", len(setup.forms))
@@ -687,9 +712,12 @@ def check_lists(res, ctx, acc, viol):
         if lines is None:
             continue
         accepted = set(k for k, st in lines.items() if st["full"])
-        res.count("%s_form_lines" % arch, len(lines))
-        res.count("%s_form_lines_implemented" % arch, len(accepted))
-        unimpl = sorted(k for k, st in lines.items() if not st["full"])
+        base = [k for k in lines if " +" not in k[2]]
+        res.count("%s_form_lines" % arch, len(base))
+        res.count("%s_form_lines_implemented" % arch, len([k for k in base if lines[k]["full"]]))
+        res.count("%s_feature_lines" % arch, len(lines) - len(base))
+        res.count("%s_feature_lines_implemented" % arch, len(accepted) - len([k for k in base if lines[k]["full"]]))
+        unimpl = sorted(k for k in base if not lines[k]["full"])
         res.count("%s_form_lines_unimplemented" % arch, len(unimpl))
         real = [k for k in unimpl if not lines[k].get("apx")]
         if unimpl:
@@ -715,7 +743,14 @@ def check_lists(res, ctx, acc, viol):
         for key in sorted(listed):
             st = lines.get(key)
             if st is None:
-                if complete:
+                why = acc.get("db_lines_" + arch, {}).get((key[0], key[1], key[2].split(" +")[0]), "absent")
+                if why is not None and "mnemonic unknown to the assembler" in why:
+                    # the db still has the form but the assembler no longer knows the mnemonic at all
+                    res.count("evaluations", 1)
+                    d = "%s form '%s %s' (mode %s) is in the vendored implemented list but cannot be requested any more: %s" % (arch, key[1], key[2], key[0], why)
+                    viol.append(("agree:%s:%s:%s:%s:implemented-form-rejected" % (arch, key[0], key[1], key[2]), "implemented-form-rejected", arch, int(key[0]), "form",
+                                 d, line_replay(arch, key, None)))
+                elif complete:
                     gone += 1
                 continue
             res.count("evaluations", 1)
@@ -807,7 +842,7 @@ def finish(res, ctx, acc):
     for g in sorted(groups, key=lambda g: (g[0], g[2], g[1], g[3] != "default", g[3])):
         arch, mode, clause, dc = g
         chosen_mn = set()
-        cap = CAP_DEFAULT if dc == "default" else CAP_PER_CLASS
+        cap = CAP_DEFAULT if dc in ("default", "form") else CAP_PER_CLASS
         for full, desc, rp, count in sorted(groups[g]):
             mn = full.split(":")[3]
             if len(chosen_mn) >= cap or per_clause[(arch, mode, clause)] >= CAP_PER_CLAUSE or mn in chosen_mn:
@@ -931,12 +966,13 @@ def _replay_a64(res, text, exes, wd, ctx):
     if crashes:
         res.add_violation("agree:a64:64:%s:%s:crash@%s" % (name, sig, L.a64_dev_class(dev)), "%s died" % crashes[0][0], text)
         return
-    rv, rn, val = obs[0]
+    rv, rn, val, vw, nw = obs[0]
     if ctx.get("replay"):
-        print("replay: `%s`\n  emit          -> %s %s\n  emit+validate -> %s %s\n  validate()    -> %s" % (emit, rn[1], rn[2], rv[1], rv[2], val[1]))
+        print("replay: `%s`\n  emit          -> %s %s\n  emit+validate -> %s %s\n  validate()    -> %s\n  after a NOP: emit -> %s %s, emit+validate -> %s %s" % (
+            emit, rn[1], rn[2], rv[1], rv[2], val[1], nw[1], nw[2], vw[1], vw[2]))
     if rn[0] < 0 or val[0] < 0:
         return
-    clauses, _ = a64_judge_case(emit, rv, rn, val)
+    clauses, _ = a64_judge_case(emit, rv, rn, val, vw, nw)
     stub = a64_probe(exes)
     for clause, desc in clauses:
         dc = L.a64_dev_class(dev)
@@ -957,9 +993,11 @@ def _replay_line(res, text, exes, wd, ctx):
     if arch == "x86":
         forms = X.load_db(vbuild.REPO)
         cases = []
+        base, _, feat = sig.partition(" +")
         for f in forms:
-            if f["name"] == name and f["sig"] == sig and int(mode) in f["modes"]:
-                cases += [c for c in X.instantiate(f, int(mode), k=0 if f["apx"] else 1) if L.is_form_instance(c.dev, int(mode))]
+            if f["name"] == name and f["sig"] == base and int(mode) in f["modes"]:
+                cases += [c for c in X.instantiate(f, int(mode), k=0 if f["apx"] else 1)
+                          if (L.x86_feature_of(c.dev) == feat if feat else L.is_form_instance(c.dev, int(mode)))]
         obs, crashes, _ = x86_observe(exes, cases, wd, "l")
         for c, (rv, rn, val) in zip(cases, obs):
             if rv is None or rn is None or val is None:
@@ -976,7 +1014,7 @@ def _replay_line(res, text, exes, wd, ctx):
             if plan.name == name and ac.form_signature(plan.form).replace(" ", "") == sig:
                 texts += [t for _, t, _, valid in a64_generate(plan, 1) if valid]
         obs, crashes = a64_observe(exes, texts, wd)
-        for t, (rv, rn, val) in zip(texts, obs):
+        for t, (rv, rn, val, vw, nw) in zip(texts, obs):
             if rv is None or rn is None or val is None:
                 continue
             st["full"] = st["full"] or (val[0] == 0 and rn[0] == 0 and rv[0] == 0)
